@@ -39,7 +39,11 @@ def main():
             m = json.load(open(mp))
             q = m.get("checks", {}).get("quick", {})
             bad = sorted(p for p, r in q.items() if r["exit"] != 0)
-            out.append("| `%s` | %s | %s |" % (sid, m.get("refactors_code_of"), ("silent (%d checks)" % len(q)) if not bad else "NOT silent: " + " ".join(bad)))
+            if bad and m.get("expected_silent") is False:
+                res = "reported by " + " ".join(bad) + " – as it should be: the corrected feature redefines a stated rule (see `meta.json` note, 10d)"
+            else:
+                res = ("silent (%d checks)" % len(q)) if not bad else "NOT silent: " + " ".join(bad)
+            out.append("| `%s` | %s | %s |" % (sid, m.get("refactors_code_of"), res))
         out.append("")
     lr = os.path.join(HERE, "mutants", "last_run.json")
     if os.path.exists(lr):
